@@ -419,7 +419,7 @@ func (qs Qsolexa) Qphred() Qphred { return solexaPhredTable[int(qs)+128] }
 // score. Since solexa scores can extend into negative territory, the table is
 // shifted 128 into the positive.
 var solexaPhredTable = func() [256]Qphred {
-	t := [256]Qphred{0: 255, 255: 0}
+	t := [256]Qphred{0: 255, 255: 254}
 	for q := range t[1:255] {
 		qs := q - 127
 		Q := Qphred(10*math.Log10(math.Pow(10, float64(qs)/10)+1) + 0.5)
